@@ -1,6 +1,52 @@
-(** C07 Dictionary codec (placeholder header; theorems follow in this file as they are proved). *)
-From FC Require Import Base.Res Region.Region Codec.Dictionary.
+(** C07 Dictionary codec: exact bytes back or refusal, frequent strings cost 1 byte. *)
+From FC Require Import Base.Res Region.Region Region.History Codec.Dictionary Codec.DictionaryOk.
 
-(** decoding the stored form of the empty string gives the empty string, whatever the dictionary *)
-Theorem C07_empty_roundtrip : forall c, stored_form c [] = Ok [] \/ exists t, stored_form c [] = Ok [t].
-Proof. intros c. unfold stored_form. destruct (lookup [] (cenc c)); eauto. Qed.
+(** The tag table [new_from] builds is consistent for ANY source statistics -- any number of
+    sources, any contents, any number of generations (sources may themselves be merged codecs),
+    lossy summaries included. *)
+Theorem C07_new_from_ok : forall cs, Forall codec_ok cs -> codec_ok (new_from cs).
+Proof. exact new_from_ok. Qed.
+Theorem C07_default_ok : codec_ok codec_default.
+Proof. exact codec_default_ok. Qed.
+
+(** Every accepted push -- dictionary hit, literal, or the empty string -- decodes to exactly the
+    pushed bytes. *)
+Theorem C07_roundtrip : forall c x st, codec_ok c -> stored_form c x = Ok st -> decode (record_stats c x) st = x.
+Proof. exact dict_roundtrip. Qed.
+
+(** A push is refused (panics) exactly when the input is not a dictionary entry and starts with an
+    assigned tag, i.e. exactly when storing it literally would read back as different bytes. *)
+Theorem C07_refusal : forall c x, stored_form c x = Panic <->
+  lookup x (cenc c) = None /\ exists b r e, x = b :: r /\ bm_get (cdec c) (N.to_nat b) = Some e.
+Proof. exact dict_refusal. Qed.
+
+(** The dictionary consists of exactly the first #free-tags strings of the merged heavy-hitter
+    summary (count descending, bytes ascending; a tag is free when no source saw it as a first
+    byte), and each of them is stored in exactly one byte. *)
+Theorem C07_dictionary : forall cs,
+  map fst (cenc (new_from cs)) =
+  firstn (length (free_tags (flat_map cseen cs) 256)) (map fst (merged_hitters cs)).
+Proof. exact new_from_dictionary. Qed.
+Theorem C07_one_byte : forall cs x,
+  In x (firstn (length (free_tags (flat_map cseen cs) 256)) (map fst (merged_hitters cs))) ->
+  exists t, stored_form (new_from cs) x = Ok [t].
+Proof. exact new_from_one_byte. Qed.
+
+(** CodecRegion<DictionaryCodec, R> meets the region contract for any byte region R that meets it
+    and accepts every byte string: round trip (C01), append-only (C02), clear (C08), merged regions
+    well formed (C10) -- and hence the history theorems below -- hold for coded regions too. *)
+Theorem C07_codec_region_ok : forall (R : Region) (SP : RSpec R) (H : RegionOK R)
+  (to_b : val R -> bytes) (of_b : bytes -> val R), (forall x, to_b (of_b x) = x) -> (forall s w, dom s w) ->
+  RegionOK (codec_region R to_b of_b).
+Proof. exact (@codec_region_ok). Qed.
+
+Theorem C07_history : forall (R : Region) (SP : RSpec R) (H : RegionOK R)
+  (to_b : val R -> bytes) (of_b : bytes -> val R) (E : forall x, to_b (of_b x) = x) (T : forall s w, dom s w)
+  (ops : list (op (codec_region R to_b of_b))),
+  @covered _ (@codec_region_spec R SP to_b of_b) ops (dflt (codec_region R to_b of_b)) ->
+  exists s log tr, run ops (dflt (codec_region R to_b of_b)) [] [] = Ok (s, log, tr) /\
+    @inv _ (@codec_region_spec R SP to_b of_b) s /\ @log_ok _ (@codec_region_spec R SP to_b of_b) s log.
+Proof.
+  intros R SP H to_b of_b E T.
+  exact (@reachable_ok (codec_region R to_b of_b) (@codec_region_spec R SP to_b of_b) (@codec_region_ok R SP H to_b of_b E T)).
+Qed.
